@@ -33,11 +33,16 @@ int vm_nsig_cv[4], vm_nbc_cv[4];      /* signal / broadcast calls per condition 
 #else
 #define VM_GHOST(stmt)
 #endif
+#ifdef VM_PRE_HOOK   /* sequential nested-context emulation: preemption point at the entry of every platform call */
+#define VM_PRE() VM_PRE_HOOK();
+#else
+#define VM_PRE()
+#endif
 #ifdef VM_PT_FAULTS
 int vm_fault_armed, vm_fault_code, vm_fault_hits;
-#define VM_FAULT() if (vm_fault_armed) { vm_fault_armed = 0; vm_fault_hits++; return vm_fault_code; }
+#define VM_FAULT() VM_PRE() if (vm_fault_armed) { vm_fault_armed = 0; vm_fault_hits++; return vm_fault_code; }
 #else
-#define VM_FAULT()
+#define VM_FAULT() VM_PRE()
 #endif
 
 #if VM_NTHR == 1
@@ -46,6 +51,18 @@ int vm_fault_armed, vm_fault_code, vm_fault_hits;
 #define VM_SEQ_STOP() VASSUME(0);
 #else
 #define VM_SEQ_STOP()
+#endif
+
+#ifdef VM_WAKE_MONITOR
+#ifndef VERIF_NATIVE
+__CPROVER_thread_local int vm_wake_pending;   /* thread-local: no cost in the interleaving encoding */
+#else
+__thread int vm_wake_pending;
+#endif
+void vm_wake_delivered(void) { vm_wake_pending = 0; }
+#define VM_MARK_WAKE(genuine) if (genuine) vm_wake_pending = 1;
+#else
+#define VM_MARK_WAKE(genuine)
 #endif
 
 int vm_mtx_index(const pthread_mutex_t *m) {
@@ -107,6 +124,9 @@ int vm_rwlock_readers(int ri) {
 
 /* to be called inside the atomic section of the thread that blocks or finishes */
 static void vm_deadlock_check(void) {
+#ifdef VM_NO_DEADLOCK_CHECK   /* harnesses whose protocol intentionally leaves threads blocked (C03_wake.c) */
+  return;
+#endif
   _Bool unfinished = 0, runnable = 0;
 #define X(t) { int s = vm_tstate_##t; if (s == VM_T_RUNNING) runnable = 1; \
                if (s == VM_T_WAITING) { unfinished = 1; if (vm_twoken_##t) runnable = 1; } }
@@ -166,6 +186,10 @@ int vm_pthread_mutex_lock(pthread_mutex_t *m) {
   { int o1 = vm_mutex_owner(i);   /* sequential query: a held mutex is never released by anybody else */
     VASSERT(o1 == 0, "mutex_lock would block for ever: the mutex is held and there is no other thread");
     VASSUME(o1 == 0); }
+#elif defined(VM_PRE_HOOK) || defined(VM_CW_HOOK)
+  /* sequential emulation with several contexts: a caller that would block does not proceed (path ends; the assume is
+   * placed before the atomic section because sequential symex dislikes an infeasible assume inside one) */
+  VASSUME(vm_mutex_owner(i) == 0 || vm_mutex_owner(i) == vm_self + 1);
 #endif
   VATOMIC_BEGIN();
 #define X(k) if (i == k) { int o = vm_mtx_owner_##k;   /* one read event */ \
@@ -221,6 +245,13 @@ int vm_pthread_cond_wait(pthread_cond_t *c, pthread_mutex_t *m) {
   int ci = vm_cv_index(c), mi = vm_mtx_index(m);
   VASSERT(ci >= 0, "cond_wait: first argument is an initialised condition variable");
   VASSERT(mi >= 0, "cond_wait: second argument is an initialised mutex");
+#ifdef VM_WAKE_MONITOR
+  /* a genuine wake-up (signal / broadcast) must be DELIVERED: the woken thread has to return from the library's wait to the
+   * API caller (who calls vm_wake_delivered) before the library may block it again; swallowing it inside the library
+   * ("spurious wake-up filter" that re-waits) breaks "signal wakes >= 1 / broadcast wakes all".  Spurious model wake-ups
+   * do not set the mark: the library may loop on them internally. */
+  VASSERT(!vm_wake_pending, "a thread woken by signal/broadcast returns from p_cond_variable_wait before it blocks again (genuine wake-up not swallowed inside the library)");
+#endif
 #ifdef VM_CW_HOOK
   /* inductive sequential queries (C02 harness 2): the wait is replaced by the harness hook, which checks the state the
    * caller blocks in and havocs the protected data to any state other threads may leave behind; the caller continues as
@@ -234,6 +265,7 @@ int vm_pthread_cond_wait(pthread_cond_t *c, pthread_mutex_t *m) {
 #undef X
 #endif
   VM_CW_HOOK(ci, mi);
+  VM_MARK_WAKE(1)      /* sequential emulation: the hook ends the wait by a wake-up issued by the other context */
 #ifdef VM_CW_RELEASE
 #define X(k) if (mi == k) { VASSERT(vm_mtx_owner_##k == 0, "cond_wait: the other context left the mutex free, the waiter can re-acquire"); \
                            VASSUME(vm_mtx_owner_##k == 0); vm_mtx_owner_##k = vm_self + 1; }
@@ -261,7 +293,7 @@ int vm_pthread_cond_wait(pthread_cond_t *c, pthread_mutex_t *m) {
 #if VM_SPURIOUS > 0
     if (vm_spur_left > 0 && nondet_bool()) { spur = 1; vm_spur_left--; }
 #endif
-#define X(t) if (vm_self == t) { VASSUME(vm_twoken_##t || spur); vm_twoken_##t = 0; vm_tstate_##t = VM_T_RUNNING; }
+#define X(t) if (vm_self == t) { int wk = vm_twoken_##t; VASSUME(wk || spur); VM_MARK_WAKE(wk) vm_twoken_##t = 0; vm_tstate_##t = VM_T_RUNNING; }
     VM_FOR_T(X)
 #undef X
 #define X(k) if (mi == k) { VASSUME(vm_mtx_owner_##k == 0); vm_mtx_owner_##k = vm_self + 1; }
